@@ -7,6 +7,7 @@ import (
 	"hash/fnv"
 	"reflect"
 	"sort"
+	"strings"
 	"time"
 
 	"github.com/trustbloc/sidetree-core-go/pkg/api/operation"
@@ -62,17 +63,18 @@ type wWorld struct {
 	driver string
 	start  time.Time
 
-	maxOps   uint
-	maxOpsBy map[uint64]uint // per protocol version (genesis time)
-	passMax  []uint          // MaxOperationCount of every version that was current at some seam call of the writer in this pass
-	versions []*simenv.Version
-	proto    *simenv.ProtoClient
-	cas      *simenv.CAS
-	ledger   *simenv.Ledger
-	q        *simenv.QueueProxy
-	writer   *batch.Writer
-	tv       *simenv.SimTimeValidator
-	checker  map[uint64]*txnprovider.OperationProvider
+	maxOps        uint
+	maxOpsBy      map[uint64]uint // per protocol version (genesis time)
+	passMax       []uint          // MaxOperationCount of every version that was current at some seam call of the writer in this pass
+	oddSuffixDone bool
+	versions      []*simenv.Version
+	proto         *simenv.ProtoClient
+	cas           *simenv.CAS
+	ledger        *simenv.Ledger
+	q             *simenv.QueueProxy
+	writer        *batch.Writer
+	tv            *simenv.SimTimeValidator
+	checker       map[uint64]*txnprovider.OperationProvider
 
 	monCh, toCh chan time.Time
 	pendingTick string
@@ -369,6 +371,27 @@ func (w *wWorld) buildOps(nDIDs, nOps, nClients int) {
 		mark++
 
 		var d *did
+
+		if !w.oddSuffixDone && len(dids) > 0 && T.Draw(12, "op.longsuffix") == 0 {
+			// a request for a DID suffix that is longer than any real one (longer than MaxOperationHashLength): it goes into
+			// the workload only if the intake parser accepts it - whatever intake accepts must read back
+			w.oddSuffixDone = true
+			k1, k2 := kg.New(workload.Ed25519, false), kg.New(workload.Ed25519, false)
+			pt, _ := workload.ToPatches([]workload.PatchDesc{{Kind: workload.AddSvc, IDs: []string{"s1"}, Mark: fmt.Sprintf("m%d", mark)}})
+			long := strings.Repeat("A", int(w.versions[0].P.MaxOperationHashLength)+1)
+
+			if req, err := workload.Build(&workload.OpSpec{Type: operation.TypeUpdate, Suffix: long, Hash: simenv.SHA2_256, SignKey: k1, NextUpdate: k2, Patches: pt}); err == nil {
+				if _, perr := w.versions[0].Parser.Parse("did:sim", req); perr == nil {
+					op := &wOp{ID: len(w.ops), Req: req, Key: simenv.ReqKey(req), Type: operation.TypeUpdate, Suffix: long, Client: T.Draw(nClients, "op.client")}
+					w.ops = append(w.ops, op)
+					w.byKey[op.Key] = op
+					w.clients[op.Client] = append(w.clients[op.Client], op)
+					w.k.Count("probe:request-with-over-long-did-suffix-accepted-by-intake")
+
+					continue
+				}
+			}
+		}
 
 		if mirror != nil {
 			// the controller applies the same change to the twin: same key, same patches, same next key - with deterministic
